@@ -367,7 +367,7 @@ type CR3Opts struct {
 	// PrvwField != 0: the jpeg-size field of the PRVW header says len(Preview)+PrvwField (the box
 	// itself is sized by what it holds) and a free box follows PRVW inside the preview uuid box
 	PrvwField int
-	Top64     int // bit 0: moov, bit 1: the xpacket uuid box, bit 2: the preview uuid box carry a 64-bit size (size field 1, largesize follows)
+	Top64     int // bit 0: moov, bit 1: the xpacket uuid box, bit 2: the preview uuid box carry a 64-bit size (size field 1, largesize follows); bit 3: the PRVW box inside it does
 	Tail      int // 0: mdat last (as cameras write it); 1: no mdat (the last metadata box ends the stream); 2: mdat before the xpacket/preview uuid boxes
 }
 
@@ -528,6 +528,9 @@ func DrawCR3(l *core.Lane, o CR3Opts) *CR3 {
 		s := len(out)
 		c.PrevW, c.PrevH = 1+l.Intn(4000), 1+l.Intn(3000)
 		prvw := Box("PRVW", be32(0), be16(1), be16(uint16(c.PrevW)), be16(uint16(c.PrevH)), be16(1), be32(uint32(len(o.Preview)+o.PrvwField)), o.Preview)
+		if o.Top64&8 != 0 {
+			prvw = Box64("PRVW", prvw[8:])
+		}
 		prvwLen := len(prvw)
 		if o.PrvwField != 0 {
 			prvw = append(prvw, Box("free", ScreenTIFF(l.Sub().Bytes(64)))...)
@@ -541,11 +544,14 @@ func DrawCR3(l *core.Lane, o CR3Opts) *CR3 {
 			out = append(out, Box("uuid", uuidPreview, be32(0), be32(1), prvw)...)
 		}
 		c.PrevOff = s + ph + 16 + 8 + 24
+		if o.Top64&8 != 0 {
+			c.PrevOff += 8
+		}
 		c.Top = append(c.Top, Span{"uuid-prvw", s, len(out)})
 		c.PrevUUID = Span{"uuid-prvw", s, len(out)}
 		c.PRVW = Span{"PRVW", s + ph + 24, s + ph + 24 + prvwLen}
 		topExtra()
-		c.Map = append(c.Map, FieldSpan{"prvwuuid.size", s, 4}, FieldSpan{"prvw.size", s + ph + 24, 4}, FieldSpan{"prvw.jpegsize", s + ph + 24 + 20, 4})
+		c.Map = append(c.Map, FieldSpan{"prvwuuid.size", s, 4}, FieldSpan{"prvw.size", s + ph + 24, 4}, FieldSpan{"prvw.jpegsize", c.PrevOff - 4, 4})
 	}
 	if o.Surround && l.Bool() {
 		s := len(out)
